@@ -245,3 +245,8 @@ Print Assumptions C20_atoi_complete.
 Print Assumptions C20_parse_bool_none.
 Print Assumptions C20_literals_spelled.
 Print Assumptions C20_spec_sound.
+Print Assumptions C20_overlay_example.
+Print Assumptions C20_conflict_example.
+Print Assumptions C20_checkconfig_example.
+Print Assumptions C20_getter_examples.
+Print Assumptions C20_atoi_examples.
